@@ -36,7 +36,7 @@ class _Inner(dict):
 
 
 INNER = _Inner()       # INNER[vk]: a fresh trait for VInst, the class for the others
-EXN = ["IndexError", "ValueError", "TraitError", "TypeError", "KeyError", "AttributeError"]
+EXN = ["IndexError", "ValueError", "TraitError", "TypeError", "KeyError", "AttributeError", "OverflowError"]
 _classes = {}
 
 
